@@ -254,6 +254,7 @@ func (r *Reader) readMap(n datamodel.Node, path string) (val.V, error) {
 	}
 	out := val.V{K: val.Map, Ents: []val.Ent{}}
 	seen := map[string]bool{}
+	var heldKeys []datamodel.Node
 	var i int64
 	for !it.Done() {
 		if i >= length {
@@ -312,10 +313,28 @@ func (r *Reader) readMap(n datamodel.Node, path string) (val.V, error) {
 			}
 		}
 		out.Ents = append(out.Ents, val.Ent{K: ks, V: cv})
+		heldKeys = append(heldKeys, kn)
 		i++
 	}
 	if i != length {
 		return val.V{}, fmt.Errorf("at %q: map Length=%d but iterator yielded %d", path, length, i)
+	}
+	// key nodes handed out by the iterator are nodes in their own right: they still read the same after the
+	// iterator has moved on, and still find their entry
+	for j, kn := range heldKeys {
+		ks, err := keyString(kn)
+		if err != nil || ks != out.Ents[j].K {
+			return val.V{}, fmt.Errorf("at %q: the key node the iterator yielded at step %d read %q then, and %q (err %v) once the iteration had finished", path, j, out.Ents[j].K, ks, err)
+		}
+		if r.Lookups && !(out.Ents[j].V.K == val.Absent && r.Typed) {
+			ln, err := n.LookupByNode(kn)
+			if err != nil {
+				return val.V{}, fmt.Errorf("at %q: LookupByNode with the key node yielded at step %d (%q), after the iteration: %w", path, j, ks, err)
+			}
+			if lv, err := (&Reader{Typed: r.Typed, MaxNodes: r.MaxNodes}).read(ln, path+"/"+ks); err != nil || !val.Equal(lv, out.Ents[j].V, val.Ordered) {
+				return val.V{}, fmt.Errorf("at %q: LookupByNode with the key node yielded at step %d (%q), after the iteration, gives %s (err %v), the iterator gave %s", path, j, ks, lv.Short(120), err, out.Ents[j].V.Short(120))
+			}
+		}
 	}
 	if _, _, err := it.Next(); err == nil {
 		return val.V{}, fmt.Errorf("at %q: map iterator over-read returned no error", path)
